@@ -259,6 +259,8 @@ class ScalarExpression(object):
                 other = ScalarExpression({other: 1}, 0)
             for k, v in other.atoms_to_coeffs.items():
                 f.atoms_to_coeffs[k] += v
+                if f.atoms_to_coeffs[k] == 0:
+                    del f.atoms_to_coeffs[k]
             f.offset += other.offset
         return f
 
@@ -274,6 +276,8 @@ class ScalarExpression(object):
             f = ScalarExpression(self.atoms_to_coeffs, self.offset, verify=False)
             for k, v in other.atoms_to_coeffs.items():
                 f.atoms_to_coeffs[k] -= v
+                if f.atoms_to_coeffs[k] == 0:
+                    del f.atoms_to_coeffs[k]
             f.offset -= other.offset
         return f
 
